@@ -84,10 +84,13 @@ type c13bulkIn struct {
 }
 
 var c13bulkLayouts = []string{"one-file", "inline+file", "two-files", "file+inline"}
-var c13bulkDeliveries = []string{"whole", "one-byte-reads", "1000-byte-reads"}
+var c13bulkDeliveries = []string{"whole", "one-byte-reads", "1000-byte-reads", "whole-no-final-newline"}
 
 func c13bulkRun(in c13bulkIn) (evals int64, sig, why string) {
 	rd := func(text string) io.Reader {
+		if in.Delivery == "whole-no-final-newline" {
+			text = strings.TrimSuffix(text, "\n") // the last entry is not terminated
+		}
 		switch in.Delivery {
 		case "one-byte-reads":
 			return iotest.OneByteReader(strings.NewReader(text))
